@@ -326,6 +326,30 @@ func Run(c *core.Ctx) {
 		}
 		recs = append(recs, rec{"op": "idrt", "ids": id, "id": core.Chars(id), "ok": ok, "got": core.Chars(back)})
 		nid++
+		// the same round trip where the id's token position is also a mount point of the mux: names that enter
+		// the mounted mux without matching there fall back to the pattern with the tag
+		if realValidPart(id) {
+			var back2 string
+			ok2 := false
+			pv := core.Catch(func() {
+				tr2 := store.IDTransformer("id", nil)
+				rid := tr2.IDToRID(id, nil, res.Pattern("lib.$id.info.x"))
+				mux := res.NewMux("lib")
+				sub := res.NewMux("")
+				sub.Handle("$bid.pages")
+				mux.Mount("a", sub)
+				mux.Route("b", func(m *res.Mux) { m.Handle("$bid.info.y") })
+				mux.Handle("$id.info.x")
+				if h := mux.GetHandler(rid); h != nil {
+					back2 = tr2.RIDToID(rid, h.Params)
+					ok2 = true
+				}
+			})
+			if pv == nil {
+				recs = append(recs, rec{"op": "idrt", "ids": id, "id": core.Chars(id), "ok": ok2, "got": core.Chars(back2)})
+				nid++
+			}
+		}
 	}
 	bad := 0
 	core.CheckRecords(c, "TracePattern", "TracePattern.cfg", recs, nil, func(i int, r interface{}, inv string) {
